@@ -1233,6 +1233,40 @@ def pptx_text_spec(me):
     return dict(base=base, off=off, nf=nf, ni=ni, fm=fm, cap=cap, kept=lambda j: z3.Length(desc(i_at(j))) > 0, cnt=cnt, cdef=cdef)
 
 
+def _str_typed(e, fnode, depth=0):
+    """SYNTACTIC: does this expression evaluate to a `str` whenever it evaluates at all?  f-strings, string constants, `"..".format(..)`,
+    `"..".join(..)`, `".." % x`, `str(..)`, `a + b` with one operand of that kind (the other is then a str or the `+` raises), a conditional
+    expression of two such, and a local name every binding of which (in the whole function) is a plain assignment of such an expression."""
+    if depth > 4:
+        return False
+    if isinstance(e, ast.JoinedStr) or (isinstance(e, ast.Constant) and isinstance(e.value, str)):
+        return True
+    if isinstance(e, ast.Call) and isinstance(e.func, ast.Attribute) and e.func.attr in ("format", "join", "format_map") \
+            and isinstance(e.func.value, ast.Constant) and isinstance(e.func.value.value, str):
+        return True
+    if isinstance(e, ast.Call) and isinstance(e.func, ast.Name) and e.func.id == "str" and fnode is not None \
+            and not any(isinstance(x, ast.Name) and x.id == "str" and isinstance(x.ctx, ast.Store) for x in ast.walk(fnode)):
+        return True
+    if isinstance(e, ast.BinOp) and isinstance(e.op, ast.Mod):
+        return isinstance(e.left, ast.JoinedStr) or (isinstance(e.left, ast.Constant) and isinstance(e.left.value, str))
+    if isinstance(e, ast.BinOp) and isinstance(e.op, ast.Add):
+        return _str_typed(e.left, fnode, depth + 1) or _str_typed(e.right, fnode, depth + 1)
+    if isinstance(e, ast.IfExp):
+        return _str_typed(e.body, fnode, depth + 1) and _str_typed(e.orelse, fnode, depth + 1)
+    if isinstance(e, ast.Name) and fnode is not None:
+        a = fnode.args
+        if e.id in {x.arg for x in a.posonlyargs + a.args + a.kwonlyargs + [y for y in (a.vararg, a.kwarg) if y is not None]}:
+            return False
+        if any(isinstance(x, (ast.Global, ast.Nonlocal)) and e.id in x.names for x in ast.walk(fnode)):
+            return False
+        stores = [x for x in ast.walk(fnode) if isinstance(x, ast.Name) and x.id == e.id and isinstance(x.ctx, (ast.Store, ast.Del))]
+        binds = [x for x in ast.walk(fnode)
+                 if (isinstance(x, ast.Assign) and len(x.targets) == 1 and isinstance(x.targets[0], ast.Name) and x.targets[0].id == e.id)
+                 or (isinstance(x, ast.AnnAssign) and x.value is not None and isinstance(x.target, ast.Name) and x.target.id == e.id)]
+        return bool(binds) and len(binds) == len(stores) and all(_str_typed(x.value, fnode, depth + 1) for x in binds)
+    return False
+
+
 def _joined_local(fnode):
     """name of the local list whose join is returned (`return sep.join(<name>)`), however it is called"""
     for n in ast.walk(fnode):
@@ -1509,8 +1543,7 @@ class C03Executor(ET.ETreeMixin, X.UnitsExecutor):
                 if isinstance(sub, ast.Call) and isinstance(sub.func, ast.Attribute) and sub.func.attr in X.MUTATORS:
                     r = self._resolve(st, sub.func.value)
                     if isinstance(r, VRef):
-                        ok = sub.func.attr == "append" and len(sub.args) == 1 and (
-                            isinstance(sub.args[0], ast.JoinedStr) or (isinstance(sub.args[0], ast.Constant) and isinstance(sub.args[0].value, str)))
+                        ok = sub.func.attr == "append" and len(sub.args) == 1 and _str_typed(sub.args[0], self.cur_fn_stack[-1] if self.cur_fn_stack else None)
                         by_ref.setdefault(r.ref, []).append(ok)
         for ref, oks in by_ref.items():
             o = st.heap.get(ref)
@@ -1741,6 +1774,15 @@ class C03Executor(ET.ETreeMixin, X.UnitsExecutor):
 
     def e_YieldFrom(self, n, st):
         v = n.value
+        if not isinstance(v, (ast.GeneratorExp, ast.ListComp)):
+            # round 8: `yield from xs` over a symbolic sequence whose elements are not units already == `for x in xs: yield x`
+            # (plain iterables: nothing is sent into / thrown at the delegate here); the loop is then found by what it iterates
+            probe = ast.GeneratorExp(ast.Name("_c03_y", ast.Load()), [ast.comprehension(ast.Name("_c03_y", ast.Store()), v, [], 0)])
+            ast.copy_location(probe, n)
+            ast.fix_missing_locations(probe)
+            view = self._probe_iter(probe, st)
+            if view is not None and not isinstance(view[1](K), AUnit):
+                v = probe
         if isinstance(v, (ast.GeneratorExp, ast.ListComp)) and len(v.generators) == 1 and self._probe_iter(v, st) is not None:
             g = v.generators[0]
             body = ast.Expr(ast.Yield(v.elt))
